@@ -194,8 +194,8 @@ def run_h1(job):
         nnew = sum(1 for i in main.code if i.op == "new") + sum(1 for p in cbs.values() for i in p.code if i.op == "new")
         if not nnew:
             T = 0
-        complete = thx.longest_path(main) + sum([T * (1 + max([thx.longest_path(p) for p in cbs.values()] + [0]))])
-        B = min(Bcap, complete) if T else max(1, thx.longest_path(main))
+        complete = thx.longest_path(main, 10 ** 6) + sum([T * (1 + max([thx.longest_path(p, 10 ** 6) for p in cbs.values()] + [0]))])
+        B = min(Bcap, complete) if T else max(1, min(Bcap, thx.longest_path(main, 10 ** 6)))
         res["bounds"] = {"progress_type": ptype, "updates_u": u, "timer_objects_T": T, "steps_B": B,
                          "B_covers_all_schedules_with_T_timers": bool(B >= complete), "schedule_class": klass,
                          "tracked_attributes": attrs, "locks": dict(low.ci.locks), "caller_events": len(main.events()),
